@@ -29,6 +29,8 @@ type Config struct {
 	MaxSteps     int64 // per path (SSA instructions)
 	MaxDepth     int   // call depth
 	DelayBound   int
+	MapOrder     int      // explore iteration orders of maps with at most this many entries (0: insertion order)
+	MapOrderIn   []string // ... for range statements in functions whose name contains one of these
 	Params       map[string]int64 // concrete shape parameters visible to the harness (verifParam)
 	Known        []KnownPred      // open known-finding predicates
 	Transcript   string
